@@ -477,6 +477,13 @@ def _data_ref(dspec, coords):
     return D.data_fn_np(dspec, coords)
 
 
+def _broadcasts_to(got, exp):
+    try:
+        return _close(np.broadcast_to(got, exp.shape), exp)
+    except ValueError:
+        return False
+
+
 def _close(recv, exp, tol=ARG_TOL):
     if recv.shape != exp.shape:
         return False
@@ -522,6 +529,7 @@ def judge_call(b, phase, loss):
 
     # --- expected value of every argument --------------------------------------------------------------
     data_used = {}       # (name, side) -> float64 array used for the loss reference
+    layout_bad = False
     stale = []
     pvals = {}
     if b.param is not None:
@@ -576,6 +584,22 @@ def judge_call(b, phase, loss):
                     V.append(viol("data_function_rows", "constant data %s arrived as %s" % (an, got.reshape(-1)[:4]),
                                   arg="data", const=True, **mech0))
                 continue
+            if got.shape != exp.shape:
+                try:
+                    got = np.broadcast_to(got, exp.shape)
+                    cnt["data_args_broadcast_layout"] = cnt.get("data_args_broadcast_layout", 0) + 1
+                except ValueError:
+                    if got.size == exp.size:
+                        layout_bad = True
+                        V.append(viol("data_function_layout", "argument %s has shape %s; the other arguments of this call "
+                                      "are laid out as %s, so the values of '%s' do not broadcast row by row against them"
+                                      % (an, got.shape, exp.shape, base), arg="data", side=side, **mech0))
+                        got = got.reshape(exp.shape)
+                    else:
+                        V.append(viol("data_function_rows", "argument %s has shape %s, the data function '%s' on the rows "
+                                      "of this call has shape %s" % (an, got.shape, base, exp.shape),
+                                      arg="data", side=side, **mech0))
+                        continue
             if _close(got, exp):
                 continue
             # which rows was it evaluated on?  (other side / earlier point sets of the same samplers)
@@ -637,6 +661,8 @@ def judge_call(b, phase, loss):
                       % (phase, [n for n, _a in stale], ", ".join(ages)), arg="data", **mech0))
 
     # --- the loss ---------------------------------------------------------------------------------------
+    if layout_bad:
+        return V, judged, cnt       # the broadcast of mis-laid-out arguments has no documented meaning
     R = D.Resolver({s: sets[s][0] for s in sets}, b.twin, data_used, pvals, dvals, fsvals)
     try:
         r64 = D.residual_np(case["residual"], R)
@@ -772,4 +798,251 @@ def run_sampler_case(case):
             res["viol"].extend(V)
             break
     res["nontrivial"] = C.get("loss_judged", 0) >= 1 and res["judged"] > 1
+    return res
+
+
+# ---------------------------------------------------------------------------------------------
+# data conditions
+# ---------------------------------------------------------------------------------------------
+
+def _norm_ref(batches_abs, norm, root, full):
+    """documented value: mean(|m-y|^p) per batch (max for 'inf'), averaged over the batches for the full data set,
+    root applied last.  batches_abs: list of float64 arrays."""
+    if norm == "inf":
+        v = max(float(np.max(a)) for a in batches_abs)
+    else:
+        v = sum(float(np.mean(a ** norm)) for a in batches_abs) / len(batches_abs)
+    if root != 1.0:
+        v = v ** (1.0 / root)
+    return v
+
+
+def run_data_case(case):
+    import torchphysics as tp
+    from torchphysics.problem.spaces import Points
+    torch.manual_seed(case["seed"])
+    rng = np.random.default_rng(case["seed"])
+    res = {"judged": 0, "nontrivial": False, "viol": [], "counters": {}}
+    C = res["counters"]
+    trace = Trace()
+    vars_ = case["vars"]
+    byname = {v["name"]: v for v in vars_}
+    model, twin = D.build_model(case["model"], vars_)
+    ds = case["dataset"]
+    cols = []
+    for n in ds["x_order"]:
+        v = byname[n]
+        cols.append(rng.uniform(v["lo"], v["hi"], size=(ds["n"], v["dim"])))
+    X = torch.tensor(np.concatenate(cols, axis=1)).float()
+    nd = sum(o["dim"] for o in case["model"]["outs"])
+    Y = torch.tensor(rng.uniform(-2, 2, size=(ds["n"], nd))).float()
+    mech0 = {"cond": "data", "norm": str(case["norm"]), "root": case["root"], "full": case["full"],
+             "constrain": bool(case.get("residual")), "model": case["model"]["type"]}
+    try:
+        loader = tp.utils.PointsDataLoader((Points(X, D.space_of(vars_, ds["x_order"])),
+                                            Points(Y, D.space_of(case["model"]["outs"]))),
+                                           batch_size=ds["batch"], shuffle=ds["shuffle"], drop_last=ds["drop_last"])
+        if len(loader) == 0:
+            res["cls_extra"] = "empty"
+            return res
+        probe_loader(loader, trace)
+        kw = {}
+        if case.get("residual"):
+            fn, _ = make_residual(case, trace)
+            kw["constrain_fn"] = fn
+        if "weight" in case:
+            kw["weight"] = case["weight"]
+        cond = tp.conditions.DataCondition(model, loader, case["norm"], root=case["root"],
+                                           use_full_dataset=case["full"], **kw)
+    except Exception as e:
+        if exc_site(e) == "?":
+            raise
+        res["viol"].append(viol("exception", "constructor raised %r" % e, exc=type(e).__name__, site=exc_site(e),
+                                phase="construct", **mech0))
+        return res
+    for k in range(case["calls"]):
+        trace.phase = k
+        try:
+            loss = cond()
+        except Exception as e:
+            if exc_site(e) == "?":
+                raise
+            res["viol"].append(viol("exception", "forward() call %d raised %r" % (k, e), exc=type(e).__name__,
+                                    site=exc_site(e), phase="forward", **mech0))
+            break
+        C["forward_calls"] = C.get("forward_calls", 0) + 1
+        bev = trace.get("batch", k)
+        C["batches"] = C.get("batches", 0) + len(bev)
+        if not bev:
+            res["viol"].append(viol("no_batch", "forward() call %d consumed no batch" % k, **mech0))
+            break
+        used = bev if case["full"] else bev[-1:]
+        rev = trace.get("residual", k)
+        absl, mags = [], []
+        bad = False
+        for bi, be in enumerate(used):
+            (xt, xs), (yt, ys) = be["items"]
+            coords, coords_t = _cols({"t": xt, "space": xs})
+            if hasattr(twin, "_cache"):
+                twin._cache.clear()
+            mo = np.concatenate([twin.out(coords, o["name"], j) for o in case["model"]["outs"] for j in range(o["dim"])],
+                                axis=-1)
+            mm = np.concatenate([twin.mag(coords, o["name"], j) for o in case["model"]["outs"] for j in range(o["dim"])],
+                                axis=-1)
+            if case.get("residual"):
+                if len(rev) != len(used):
+                    res["viol"].append(viol("constrain_calls", "constrain_fn called %d times for %d batches"
+                                            % (len(rev), len(used)), **mech0))
+                    bad = True
+                    break
+                recv = rev[bi]["kw"]
+                for k_, base, side in [tuple(a) for a in case["sigargs"]]:
+                    rt = recv[D.argname(base, side)]["t"]
+                    res["judged"] += xt.shape[0]
+                    if k_ == "coord":
+                        if tuple(rt.shape) != tuple(coords_t[base].shape) or not torch.equal(rt, coords_t[base]):
+                            res["viol"].append(viol("coordinate_rows", "constrain_fn argument %s does not carry the batch "
+                                                    "columns of '%s'" % (base, base), arg="coord", **mech0))
+                            bad = True
+                    elif k_ == "out":
+                        o = [o for o in case["model"]["outs"] if o["name"] == base][0]
+                        exp = np.concatenate([twin.out(coords, base, j) for j in range(o["dim"])], axis=-1)
+                        if not _close(_np(rt), exp):
+                            res["viol"].append(viol("output_rows", "constrain_fn argument %s is not the model output at the "
+                                                    "batch rows" % base, arg="out", **mech0))
+                            bad = True
+                R = D.Resolver({"": coords}, twin, {}, {}, {})
+                mo = D.residual_np(case["residual"], R)
+                mm = D.residual_np(case["residual"], R, mag=True)
+            y = _np(yt)
+            absl.append(np.abs(mo - y))
+            mags.append(mm + np.abs(y))
+            res["judged"] += xt.shape[0]
+        if bad:
+            break
+        ref = _norm_ref(absl, case["norm"], case["root"], case["full"])
+        scale = _norm_ref(mags, case["norm"], case["root"], case["full"])
+        got_t = loss
+        if not isinstance(got_t, torch.Tensor) or got_t.numel() != 1:
+            res["viol"].append(viol("loss_shape", "forward returned %r" % (got_t,), **mech0))
+            break
+        got = float(got_t.detach().double().reshape(-1)[0])
+        C["loss_judged"] = C.get("loss_judged", 0) + 1
+        res["judged"] += 1
+        # the root amplifies relative errors of tiny arguments; tolerance on the un-rooted scale is kept relative
+        tol = RTOL * max(abs(ref), scale) * (3 if case["root"] != 1.0 else 1) + 1e-12
+        if not abs(got - ref) <= tol:
+            res["viol"].append(viol("loss_value", "forward() call %d returned %.9g, documented value on the %d delivered "
+                                    "batch(es) (sizes %s) is %.9g (ratio %.6g)"
+                                    % (k, got, len(used), [a.shape[0] for a in absl], ref, got / ref if ref else float("nan")),
+                                    nbatches=len(used) if len(used) < 3 else "3+", **mech0))
+            break
+    res["nontrivial"] = C.get("loss_judged", 0) >= 1
+    return res
+
+
+def run_deeponet_data_case(case):
+    import torchphysics as tp
+    from torchphysics.problem.spaces import Points
+    torch.manual_seed(case["seed"])
+    rng = np.random.default_rng(case["seed"])
+    res = {"judged": 0, "nontrivial": False, "viol": [], "counters": {}}
+    C = res["counters"]
+    trace = Trace()
+    world = World()
+    vars_ = case["vars"]
+    byname = {v["name"]: v for v in vars_}
+    net, twin, fs = build_deeponet(case, world, trace)
+    ds = case["dataset"]
+    don = case["don"]
+    in_order = case["model"]["in_order"]
+    nd = sum(o["dim"] for o in case["model"]["outs"])
+    branch = torch.tensor(rng.uniform(-1, 1, size=(ds["nf"], don["disc_n"], don["fout"]["dim"]))).float()
+    cols = [rng.uniform(byname[n]["lo"], byname[n]["hi"], size=(ds["nt"], byname[n]["dim"])) for n in in_order]
+    trunk = torch.tensor(np.concatenate(cols, axis=1)).float()
+    out = torch.tensor(rng.uniform(-2, 2, size=(ds["nf"], ds["nt"], nd))).float()
+    mech0 = {"cond": "deeponet_data", "norm": str(case["norm"]), "root": case["root"], "full": case["full"]}
+    try:
+        loader = tp.utils.DeepONetDataLoader(branch, trunk, out, D.space_of([don["fout"]]), D.space_of(vars_, in_order),
+                                             D.space_of(case["model"]["outs"]), ds["bb"], ds["tb"],
+                                             shuffle_branch=ds["shuffle_branch"], shuffle_trunk=ds["shuffle_trunk"])
+        probe_loader(loader, trace)
+        cond = tp.conditions.DeepONetDataCondition(net, loader, case["norm"], root=case["root"],
+                                                   use_full_dataset=case["full"])
+    except Exception as e:
+        if exc_site(e) == "?":
+            raise
+        res["viol"].append(viol("exception", "constructor raised %r" % e, exc=type(e).__name__, site=exc_site(e),
+                                phase="construct", **mech0))
+        return res
+    for k in range(case["calls"]):
+        trace.phase = k
+        try:
+            loss = cond()
+        except Exception as e:
+            if exc_site(e) == "?":
+                raise
+            res["viol"].append(viol("exception", "forward() call %d raised %r" % (k, e), exc=type(e).__name__,
+                                    site=exc_site(e), phase="forward", **mech0))
+            break
+        C["forward_calls"] = C.get("forward_calls", 0) + 1
+        bev = trace.get("batch", k)
+        C["batches"] = C.get("batches", 0) + len(bev)
+        if not bev:
+            res["viol"].append(viol("no_batch", "forward() call %d consumed no batch" % k, **mech0))
+            break
+        used = bev if case["full"] else bev[-1:]
+        absl = []
+        for be in used:
+            (bt, bs), (tt, ts), (ot, os_) = be["items"]
+            with torch.no_grad():
+                net.branch(Points(bt, D.space_of([don["fout"]])))
+                m = net(Points(tt, D.space_of(vars_, [n for n, _d in ts]))).as_tensor
+            absl.append(np.abs(_np(m) - _np(ot)))
+            res["judged"] += int(np.prod(ot.shape[:-1]))
+        ref = _norm_ref(absl, case["norm"], case["root"], case["full"])
+        got = float(loss.detach().double().reshape(-1)[0]) if isinstance(loss, torch.Tensor) and loss.numel() == 1 else None
+        C["loss_judged"] = C.get("loss_judged", 0) + 1
+        if got is None or not abs(got - ref) <= 3 * RTOL * max(abs(ref), 1.0):
+            res["viol"].append(viol("loss_value", "forward() call %d returned %s, documented value on the %d delivered "
+                                    "batch(es) is %.9g" % (k, got, len(used), ref),
+                                    nbatches=len(used) if len(used) < 3 else "3+", **mech0))
+            break
+    res["nontrivial"] = C.get("loss_judged", 0) >= 1
+    return res
+
+
+def run_param_case(case):
+    import torchphysics as tp
+    torch.manual_seed(case["seed"])
+    res = {"judged": 0, "nontrivial": False, "viol": [], "counters": {}}
+    trace = Trace()
+    param = make_parameter(case)
+    fn, _ = make_residual(case, trace)
+    mech0 = {"cond": "param"}
+    try:
+        cond = tp.conditions.ParameterCondition(param, fn, case["weight"])
+        for k in range(case["calls"]):
+            trace.phase = k
+            loss = cond()
+            recv = trace.get("residual", k)[-1]["kw"]
+            pc = param.coordinates
+            for k_, base, side in [tuple(a) for a in case["sigargs"]]:
+                res["judged"] += 1
+                if not torch.equal(recv[base]["t"], pc[base].detach()):
+                    res["viol"].append(viol("parameter_by_name", "penalty argument %s = %s, Parameter is %s"
+                                            % (base, recv[base]["t"].tolist(), pc[base].tolist()), arg="par", **mech0))
+            R = D.Resolver({}, None, {}, {n: _np(pc[n]) for n in pc}, {})
+            ref = D.residual_np(case["residual"], R)
+            got = _np(loss)
+            if got.shape != ref.shape or not np.allclose(got, ref, rtol=1e-5, atol=1e-6):
+                res["viol"].append(viol("loss_value", "penalty condition returned %s, penalty of the parameters is %s"
+                                        % (got.tolist(), ref.tolist()), **mech0))
+            res["counters"]["loss_judged"] = res["counters"].get("loss_judged", 0) + 1
+    except Exception as e:
+        if exc_site(e) == "?":
+            raise
+        res["viol"].append(viol("exception", "ParameterCondition raised %r" % e, exc=type(e).__name__, site=exc_site(e),
+                                **mech0))
+    res["nontrivial"] = res["counters"].get("loss_judged", 0) >= 1
     return res
